@@ -197,8 +197,15 @@ func c05xRun(line string, f map[string]string, out *hx.Out) (string, bool) {
 	stream = append(stream, wr.written.Bytes()...)
 	rd := newChunkReader(stream, chunk, int64(cseed))
 	p := pf(rd)
+	reused := socket.NewMessage()
 	for i, w := range want {
-		got, class := unpackOne(p)
+		var got *M
+		var class string
+		if cseed%2 == 0 { // half of the cases decode into one re-used message object
+			got, class = unpackInto(p, reused)
+		} else {
+			got, class = unpackOne(p)
+		}
 		if class != "ok" {
 			sig := "c05:" + proto + ":frame-sync"
 			if proto == "wsjson" && len(w.Pipe) > 0 {
